@@ -17,7 +17,7 @@ LEVEL_TEXT = ("Static structural proof of necessary conditions: (R17.1/R17.2) al
               "the validator call with its raise dominates dispatcher construction; (R17.5) every registered class defines "
               "PARAMS, do_op and validate_input_data; (R17.6) in the dispatcher loop each do_op is bracketed by the "
               "n/a->NaN and NaN->n/a conversions. What each operation computes is NOT decided.")
-LEVEL_EXTRA = 'Added after the seeded evaluation: (R17.3) optional keys of nested item parameters are not subscripted unguarded.'
+LEVEL_EXTRA = 'Added after the seeded evaluation: (R17.3) optional keys of nested item parameters are not subscripted unguarded. Added after the hunting pass: (R17.7) in the operations the first row of a boolean-mask selection is taken only under an emptiness test.'
 
 NAMED = ["remove_rows", "remove_columns", "rename_columns", "reorder_columns", "factor_column", "remap_columns",
          "merge_consecutive", "split_rows"]
@@ -231,6 +231,15 @@ def run(ctx):
                                       "validated operation that omits it raises KeyError while running" % (norm(x), key, pname),
                                       desc="%s: optional item key %r guarded" % (cls.name, key))
     ctx.notes.append("R17.3: subscripts of optional keys of nested item parameters = %d" % n_nested)
+
+    # ---------------- R17.7: the first row of a mask selection is taken only when the selection has rows
+    ctx.rule("R17.7", "in the operations, the first/last row of a boolean-mask selection is taken under an emptiness test")
+    from sa.firstelem import check_first_row
+    opmods = {cls.module.name for _, cls, _ in named}
+    scope7 = [f for f in prog.functions.values() if f.module.name in opmods or f.module.name == "hed.tools.analysis.key_map"]
+    n7 = check_first_row(ctx, "R17.7", scope7, view,
+                         "a validated operation raises IndexError on a table that has the named columns")
+    ctx.floor("R17.7", "first-row accesses on mask selections in the operations", n7, 1)
 
     # ---------------- R17.4
     cli = prog.find_module("remodeling.cli.run_remodel")
